@@ -1,6 +1,7 @@
 package humanize
 
 import (
+	"math"
 	"strconv"
 )
 
@@ -18,6 +19,9 @@ func ByteSize(n uint64) string {
 
 // AlwaysByteSize formats bytesize (iec, power of 2) without checking `Enabled` first
 func AlwaysByteSize(n uint64, precision int) string {
+	if n > math.MaxInt64 {
+		return unitizeFloat(float64(n), 1024, precision, " ", iecSizes[:])
+	}
 	return unitize(int64(n), 1024, precision, " ", iecSizes[:])
 }
 
@@ -31,6 +35,9 @@ func ByteSizeSi(n uint64) string {
 
 // Bytesize using SI (1000) units, even if disabled
 func AlwaysByteSizeSi(n uint64, precision int) string {
+	if n > math.MaxInt64 {
+		return unitizeFloat(float64(n), 1000, precision, " ", siSizes[:])
+	}
 	return unitize(int64(n), 1000, precision, " ", siSizes[:])
 }
 
@@ -61,7 +68,13 @@ func unitize(n, step int64, precision int, delim string, units []string) string 
 		return string(buf)
 	}
 
-	nf, sf := float64(n), float64(step)
+	return unitizeFloat(float64(n), step, precision, delim, units)
+}
+
+// downscale a number that is at least one step in magnitude
+func unitizeFloat(nf float64, step int64, precision int, delim string, units []string) string {
+	buf := make([]byte, 0, 16)
+	sf := float64(step)
 	rank := 0
 	for (nf <= -sf || nf >= sf) && rank < len(units)-1 {
 		nf /= sf
